@@ -51,6 +51,7 @@ type FnVC struct {
 	ModelQ    []string // terms worth querying in a model
 	Cases     []string // case split (terms over the entry state)
 	Axioms    []string // definitional axioms assumed
+	CallSite  []string // call-site contracts applied (assumed)
 }
 
 type placeKind int
@@ -139,19 +140,34 @@ type Tr struct {
 	sliceConstLen map[string]int64
 	topFrame      *frame
 	addrSeen      map[string]bool
+	pure          int
+	callTexts     map[token.Pos]string
 }
 
-func (tr *Tr) raw(s string) { tr.vc.Items = append(tr.vc.Items, Item{Text: s}) }
+// pure > 0: a Go function is being evaluated inside a specification (possibly under a quantifier):
+// terms are expanded in place, nothing is emitted, obligations are not generated, writes are errors.
+func (tr *Tr) raw(s string) {
+	if tr.pure > 0 {
+		if strings.HasPrefix(s, "(declare-const") {
+			vfail("a Go function called from a specification needs a fresh value (unknown result); it is not pure")
+		}
+		return
+	}
+	tr.vc.Items = append(tr.vc.Items, Item{Text: s})
+}
 
 var defCtr int
 
 func (tr *Tr) define(sortS, term, hint string) string {
-	if len(term) < 48 && !strings.Contains(term, "\n") {
+	if tr.pure > 0 || len(term) < 48 && !strings.Contains(term, "\n") {
 		return term
 	}
 	defCtr++
 	n := fmt.Sprintf("%s~%d", mangle(hint), defCtr)
 	tr.raw(fmt.Sprintf("(define-fun %s () %s %s)", n, sortS, term))
+	if d, ok := storeDefs[term]; ok {
+		storeDefs[n] = d
+	}
 	return n
 }
 
@@ -170,6 +186,9 @@ func (tr *Tr) assume(reach, f string) {
 }
 
 func (tr *Tr) oblige(fr *frame, kind, label, prop, reach, f string, pos token.Pos, desc string) *Obligation {
+	if tr.pure > 0 {
+		return &Obligation{} // specifications are evaluated where their value is defined; no obligations
+	}
 	name := tr.obName(fr, kind, label)
 	ob := &Obligation{Name: name, Kind: kind, Prop: prop, Goal: implies(reach, f), Desc: desc}
 	if pos.IsValid() {
@@ -227,7 +246,7 @@ func shortFuncName(f *ssa.Function) string {
 func (tr *Tr) addr(structKey, field, base string) string {
 	fn := tr.C.addrFn(structKey, field)
 	t := app(fn, base)
-	if !tr.addrSeen[t] {
+	if !tr.addrSeen[t] && tr.pure == 0 {
 		tr.addrSeen[t] = true
 		tr.raw(fmt.Sprintf("(assert (and (< %s 0) (= (%s!inv %s) %s) (= (addrtag %s) %d)))", t, fn, t, base, t, tr.C.addrTag[fn]))
 	}
@@ -455,6 +474,7 @@ func (tr *Tr) unboxIface(x string, t types.Type) Val {
 
 func (g *Global) genVC(fn *ssa.Function, contract *Contract) (vc *FnVC) {
 	C := newCtx()
+	storeDefs = map[string][2]string{}
 	vc = &FnVC{Fn: fn, Contract: contract, Ctx: C, Inlined: map[string]int{}, Unknown: map[string]int{}, Abstract: map[string]int{}, UsedContr: map[string]bool{}}
 	tr := &Tr{G: g, C: C, vc: vc, sliceConstLen: map[string]int64{}, addrSeen: map[string]bool{}}
 	defer func() {
@@ -514,6 +534,9 @@ func (g *Global) genVC(fn *ssa.Function, contract *Contract) (vc *FnVC) {
 			}
 			if v.K != nil {
 				v = env.coerce(v, tInt)
+			}
+			if v.T != "" && !v.Obj {
+				v.T = tr.define(C.sortOf(v.Ty), v.T, "let_"+l.Name)
 			}
 			fr.lets[l.Name] = v
 			env.names[l.Name] = v
